@@ -31,6 +31,7 @@ import typing as t
 from .. import astq
 from ..cfg import CFG, Node, cfg_of
 from ..dataflow import Def, ReachingDefs, bound_in_enclosing_comp
+from ..fold import Folder
 from ..loader import AnalysisError, FuncInfo, const_str, dotted, is_self_attr, norm, walk_no_nested
 from ..report import Ctx
 from ._c12_helpers import UNKNOWN, BudgetExceeded, ConstExec, alias_values_rule, build_order_rule, composed_parts, defaults_provider_rule, matcher_rules
@@ -68,7 +69,16 @@ LEVEL_TEXT = (
     "false for a build-only candidate (its URL matches nothing); (R12.11) convergence premise of the alias and defaults redirects: the sort "
     "key of the per-endpoint rule lists (the sort may sit in a helper the Map hands the list to), evaluated on symbolic (non-alias, alias) rule pairs with 0..2 arguments and every number of "
     "defaults, places the alias rule strictly after the non-alias rule with the same number of arguments - otherwise build() answers an "
-    "alias redirect with the alias rule's own URL, and the canonical URL is defaults-redirected to the alias. Decided on all paths of the "
+    "alias redirect with the alias rule's own URL, and the canonical URL is defaults-redirected to the alias; (R12.12) table rule on the safe sets of the "
+    "urllib quote() calls whose result becomes path text of a router redirect URL - every quote call the interpreter meets on the way to a redirect URL "
+    "whose string argument carries request-path data or matcher-exception data (today: the re-quoting of the decoded path in the slash / merged-slash "
+    "handler), and every quote call in the rules and converters modules (the converters' to_url, the static text of the Rule's builder: the text build() "
+    "puts into alias and defaults redirects): the safe argument (default '/'), folded through locals, module- and class-level constants, concatenations, "
+    "conditional expressions, parameter defaults and the arguments of the calling context, contains no '?' and no '#' (a literal one would end the path of "
+    "the target) and no '%' (the text is decoded: a literal '%' must be escaped), and keeps '/' where the whole request path is re-quoted; a safe set that "
+    "does not fold is ANALYSIS-ERROR; (R12.13) where a rule's build() is called on values that carry the alias-redirect signal's data, its append_unknown "
+    "flag - argument or default, evaluated in the calling context of the redirect (keyword / positional / local / forwarded through helper parameters) - is "
+    "false: the alias rule's values that the canonical rule does not take must not become a query string the request did not have. Decided on all paths of the "
     "analysed functions. Strings put together by f-string, +, str.join of a literal tuple, str.format with plain positional fields and % with %s are read alike. Values are followed element-wise through tuples, mappings with constant keys, lists / generators / iterators "
     "(yield, next(), for, comprehensions, iter(callable, sentinel)), item stores and mutating calls on locals, * / ** arguments taken from "
     "literal tuples / tables, and through methods (also static / class-level) and module-level functions of the routing package; where request "
@@ -80,7 +90,9 @@ LEVEL_TEXT = (
     "arguments, an arguments test that is written in the adapter's loop instead of the rule-pair predicate), that values are converted correctly "
     "(to_python/to_url round trip), adapters bound to an empty or other scheme, the host of a redirect built from a rule that declares "
     "another subdomain / host than the one the adapter is bound to, value-level "
-    "correctness of quote()/_urlencode, and redirect_to targets (excluded by the property)."
+    "correctness of quote()/_urlencode beyond the safe-set table of R12.12 (other characters of the safe sets, quoting done by other means than urllib's "
+    "quote / quote_plus, a quote call wrapped by functools.partial or made outside the routing package), unknown values appended on the defaults redirect "
+    "(excluded there by R12.10: the argument sets are equal), and redirect_to targets (excluded by the property)."
 )
 TRUSTED = [
     "CPython ast",
@@ -110,6 +122,7 @@ ADAPTER = "routing.map.MapAdapter"
 MATCHER = "routing.matcher.StateMachineMatcher"
 URLUNSPLIT = "urllib.parse.urlunsplit"
 URLJOIN = "urllib.parse.urljoin"
+QUOTE_FNS = ("urllib.parse.quote", "urllib.parse.quote_plus")
 REDIRECT_EXC = "werkzeug.routing.exceptions.RequestRedirect"
 REQUEST_PARAMS = ("path_info", "query_args")  # public keyword names of MapAdapter.match / __init__
 SCHEME_PARAM = "url_scheme"  # public keyword name of MapAdapter.__init__ / Map.bind
@@ -486,6 +499,10 @@ class Interp:
         # the same for the host position (R12.9), with the adapter's own functions called there whose result goes into it
         self.host_sites: list[tuple[ast.AST, Frame, list[Piece], list[FuncInfo]]] = []
         self._inlined: tuple[Frame, list[FuncInfo]] | None = None
+        # (R12.12) calls of urllib.parse.quote met while evaluating, with the frame and what their string argument carries
+        self.quote_calls: dict[tuple[int, tuple[str, ...]], tuple[ast.Call, Frame, Abs]] = {}
+        # (R12.13) calls of a rule's build() met while evaluating, with the frame and what their values argument carries
+        self.rule_builds: dict[tuple[int, tuple[str, ...]], tuple[ast.Call, Frame, Abs]] = {}
 
     # -- frames ---------------------------------------------------------
     def call_frame(self, callee: FuncInfo, call: ast.Call, fr: Frame) -> Frame:
@@ -890,6 +907,9 @@ class Interp:
             # a method of a value: what it gives may be a part of the value
             parts.append(_labels_only(recv.cooked(select=True)) if recv.structured() or recv.het else recv)
         allv = join_all(parts) if parts else BOUND
+        if fq in QUOTE_FNS:
+            first = c.args[0] if c.args and not isinstance(c.args[0], ast.Starred) else next((k.value for k in c.keywords if k.arg == "string"), None)
+            self.quote_calls.setdefault((id(c), fr.stack), (c, fr, self.ev(first, fr) if first is not None else allv))
         if fq == URLJOIN:
             self.urljoins.append((c, fr))
             r = allv.cooked((f"urljoin at {fr.fi.qualname}",))
@@ -899,6 +919,8 @@ class Interp:
             return r
         if isinstance(f, ast.Attribute) and f.attr == "build" and not astq.is_name(f.value, "self"):
             # Rule.build(values) -> (domain part declared by the rule, path built from the values) | None
+            first = c.args[0] if c.args and not isinstance(c.args[0], ast.Starred) else next((k.value for k in c.keywords if k.arg == "values"), None)
+            self.rule_builds.setdefault((id(c), fr.stack), (c, fr, self.ev(first, fr) if first is not None else allv))
             return Abs(tup=(BOUND, allv.cooked()))
         return allv.cooked()
 
@@ -1206,6 +1228,9 @@ def run(ctx: Ctx) -> None:
     ctx.rule("R12.10", "the rule-pair predicate by which the adapter picks a defaults-canonical form for the matched rule is false for every pair of rules whose argument sets differ, and for a build-only candidate")
     ctx.rule("R12.11", "the sort key of the per-endpoint rule lists (the order in which build() and the defaults redirect try rules) places an alias rule strictly after every non-alias rule with the same number of arguments, for all numbers of arguments and defaults")
 
+    ctx.rule("R12.12", "the safe set of every urllib quote() whose result becomes path text of a router redirect URL - the re-quoting of the request path, the converters' to_url, the Rule's builder - folds to a constant without '?', '#' and '%' (and, where the whole request path is re-quoted, with '/')")
+    ctx.rule("R12.13", "where a rule's build() is called on the values of the alias-redirect signal, its append_unknown flag evaluates to false in that calling context: values the canonical rule does not take must not become a query string")
+
     ip = Interp(ctx)
     match = repo.func(f"{ADAPTER}.match")
     for p in REQUEST_PARAMS:
@@ -1366,6 +1391,9 @@ def run(ctx: Ctx) -> None:
     # ---------------- R12.10 / R12.11 (wzsa/rules/_c12_helpers.py) ----------------
     defaults_provider_rule(ctx)
     build_order_rule(ctx)
+    # ---------------- R12.12 / R12.13 -------------------------------------------
+    _quote_rule(ctx, ip)
+    _alias_build_rule(ctx, ip)
 
 
 # ---------------------------------------------------------------------
@@ -1704,6 +1732,193 @@ def _matcher_path(ctx: Ctx, ip: Interp, top: Frame) -> None:
 
 # ---------------------------------------------------------------------
 # R12.4
+
+
+# ---------------------------------------------------------------------
+# R12.12 / R12.13
+
+PATH_ENDERS = "?#"  # a raw '?' / '#' ends the path component of a URL
+PATH_LABELS = ("matcher exception", f"match({REQUEST_PARAMS[0]})", f"self.{REQUEST_PARAMS[0]}")
+PATH_TEXT_MODULES = ("werkzeug.routing.converters", "werkzeug.routing.rules")
+RULE_CLS = "routing.rules.Rule"
+UNKNOWN_FLAG = "append_unknown"  # public keyword of Rule.build / MapAdapter.build
+
+
+def _param_default(fi: FuncInfo, name: str) -> ast.AST | None:
+    a = fi.node.args  # type: ignore[attr-defined]
+    allp = a.posonlyargs + a.args
+    for x, d in zip(reversed(allp), reversed(a.defaults)):
+        if x.arg == name:
+            return d
+    for x, d in zip(a.kwonlyargs, a.kw_defaults):
+        if x.arg == name:
+            return d
+    return None
+
+
+def _const_values(ip: Interp, e: ast.AST, fr: Frame, depth: int = 0) -> list[t.Any] | None:
+    """the Python constants an expression can be where it stands: what the interpreter knows (literals, locals,
+    conditional expressions, arguments / constant defaults of the calling context), else folded - a module-level or
+    class-level constant, a concatenation / f-string of such, the default of a parameter the calling context leaves
+    open, the argument the caller passes.  None: not a constant the analysis can follow."""
+    if depth > 6:
+        return None
+    if isinstance(e, ast.Constant):
+        return [e.value]
+    if fr.cfg.node_of(e) is None and depth == 0 and any(e is x for f in ast.walk(fr.fi.node) if f is not fr.fi.node and isinstance(f, (ast.FunctionDef, ast.AsyncFunctionDef, ast.Lambda)) for x in ast.walk(f)):
+        # inside a nested function: only constants of the module
+        try:
+            return [Folder(ip.repo).expr(fr.fi.module, e)]
+        except AnalysisError:
+            return None
+    v = ip.ev(e, fr)
+    if v.consts and not v.flat() and not v.structured() and not v.urls:
+        return sorted(v.consts, key=repr)
+    e = ip.single_value(e, fr)
+    if isinstance(e, ast.IfExp):
+        a, b = _const_values(ip, e.body, fr, depth + 1), _const_values(ip, e.orelse, fr, depth + 1)
+        return None if a is None or b is None else a + [x for x in b if x not in a]
+    if isinstance(e, ast.Name) and e.id in fr.fi.params:
+        node = fr.cfg.node_of(e)
+        defs = list(fr.rd.reaching(node, e.id)) if node is not None else []
+        if defs and all(d.kind == "param" for d in defs):
+            arg = _argument_for(fr, e.id)
+            if arg is not None and fr.parent is not None:
+                return _const_values(ip, arg, fr.parent, depth + 1)
+            if fr.call is not None and (any(isinstance(x, ast.Starred) for x in fr.call.args) or any(k.arg is None for k in fr.call.keywords)):
+                return None
+            d = _param_default(fr.fi, e.id)
+            if d is None:
+                return None
+            try:
+                return [Folder(ip.repo).expr(fr.fi.module, d)]
+            except AnalysisError:
+                return None
+    if isinstance(e, ast.Attribute) and fr.fi.cls is not None:
+        own = astq.is_name(e.value, "self") or astq.is_name(e.value, "cls") or astq.is_name(e.value, fr.fi.cls.name) \
+            or (isinstance(e.value, ast.Call) and astq.is_name(e.value.func, "type") and len(e.value.args) == 1 and astq.is_name(e.value.args[0], "self"))
+        if own:
+            found = ip.repo.lookup(fr.fi.cls, e.attr)
+            what = found[1] if found else None
+            if isinstance(what, ast.AST):
+                try:
+                    return [Folder(ip.repo).expr(found[0].module if hasattr(found[0], "module") else fr.fi.module, what)]
+                except AnalysisError:
+                    return None
+            return None
+    try:
+        return [Folder(ip.repo).expr(fr.fi.module, e)]
+    except AnalysisError:
+        return None
+
+
+def _quote_safe_expr(c: ast.Call) -> tuple[bool, ast.AST | None]:
+    """(binding understood, the expression given for quote()'s `safe` parameter or None for its default '/')."""
+    if any(isinstance(a, ast.Starred) for a in c.args) or any(k.arg is None for k in c.keywords):
+        return False, None
+    for k in c.keywords:
+        if k.arg == "safe":
+            return True, k.value
+    return True, (c.args[1] if len(c.args) > 1 else None)
+
+
+def _judge_safe(ctx: Ctx, ip: Interp, c: ast.Call, fr: Frame, role: str, whole_path: bool, key: str) -> bool:
+    fi = fr.fi
+    # a second quote call of the same function gets its own finding key (by order of appearance)
+    used = ctx.__dict__.setdefault("_c12_quote_keys", {})
+    used[key] = used.get(key, 0) + 1
+    if used[key] > 1:
+        key = f"{key} #{used[key]}"
+    okb, sx = _quote_safe_expr(c)
+    vals: list[t.Any] | None = ["/"] if okb and sx is None else (_const_values(ip, sx, fr) if okb and sx is not None else None)
+    if vals is None or not vals or not all(isinstance(x, (str, bytes)) for x in vals):
+        ctx.error(f"R12.12: {fi.qualname}: the safe set `{norm(sx)[:60] if sx is not None else norm(c)[:60]}` of the quote call at {fi.loc(c)} ({role}) does not fold to a constant")
+        return False
+    bad: list[str] = []
+    for sv in vals:
+        text = sv.decode("latin-1") if isinstance(sv, bytes) else sv
+        ends = sorted(ch for ch in set(text) if ch in PATH_ENDERS)
+        if ends:
+            bad.append(f"safe set {text!r} leaves {ends} unquoted: a literal one in the quoted text ends the path of the URL")
+        if "%" in text:
+            bad.append(f"safe set {text!r} leaves '%' unquoted: a literal '%' of the decoded text starts an escape in the URL")
+        if whole_path and "/" not in text:
+            bad.append(f"safe set {text!r} quotes '/': the separators of the re-quoted request path are lost")
+    ctx.ob("R12.12", f"{fi.qualname}: safe set of the quote call ({role})", not bad,
+           "; ".join(bad) if bad else f"safe set(s) {sorted(map(str, vals))}: no '?', '#', '%'" + (", keeps '/'" if whole_path else ""), fi, c, key)
+    return True
+
+
+def _quote_rule(ctx: Ctx, ip: Interp) -> None:
+    repo = ctx.repo
+    # (a) quote calls the interpreter met on the way to a router redirect URL whose text is request-path data
+    seen: set[int] = set()
+    n_flow = 0
+    for (_cid, _stack), (c, fr, arg) in sorted(ip.quote_calls.items(), key=lambda kv: (kv[1][1].fi.fq, getattr(kv[1][0], "lineno", 0), kv[0][1])):
+        if id(c) in seen:
+            continue
+        carried = sorted({n for n, _ in arg.flat() if n.startswith(PATH_LABELS)})
+        if not carried:
+            continue
+        seen.add(id(c))
+        n_flow += 1
+        _judge_safe(ctx, ip, c, fr, f"re-quotes request path data {carried} for a redirect URL", True, f"quote safe set in {fr.fi.qualname} [request path]")
+    ctx.floor("R12.12", "quote calls on request-path data on the way to a router redirect URL", n_flow, 1)
+    # (b) the quote calls that make the text Rule.build() puts into the path: everything the rules and converters
+    # modules quote (the converters' to_url, the static text of the Rule's builder, helpers of either) is path text -
+    # query strings are made by _urlencode
+    n_tab = 0
+    for mname in PATH_TEXT_MODULES:
+        m = repo.module(mname)
+        fis = sorted(list(m.functions.values()) + [f for k in m.classes.values() for f in k.methods.values()], key=lambda f: f.fq)
+        for f in fis:
+            probe = Frame(f, {}, ())
+            for c in astq.calls(f.node):
+                d = dotted(c.func)
+                if d and repo.resolve(f.module, d, f.module.local_imports(f.node)) in QUOTE_FNS and id(c) not in seen:
+                    seen.add(id(c))
+                    n_tab += 1
+                    _judge_safe(ctx, ip, c, probe, "path text of built URLs", False, f"quote safe set in {f.qualname}")
+    ctx.floor("R12.12", "quote calls in the rules and converters modules", n_tab, 1)
+
+
+def _alias_build_rule(ctx: Ctx, ip: Interp) -> None:
+    rb = ctx.repo.func(f"{RULE_CLS}.build")
+    if UNKNOWN_FLAG not in rb.params:
+        raise AnalysisError(f"Rule.build has no parameter `{UNKNOWN_FLAG}`")
+    pos = [p for p in rb.params if p != "self"]
+    n = 0
+    done: set[tuple[int, str]] = set()
+    for (_cid, _stack), (c, fr, values) in sorted(ip.rule_builds.items(), key=lambda kv: (kv[1][1].fi.fq, getattr(kv[1][0], "lineno", 0), kv[0][1])):
+        carried = sorted({nm for nm, _ in values.flat() if nm.startswith("matcher exception")})
+        if not carried:
+            continue
+        via = " <- ".join(x.rsplit(".", 1)[-1] for x in reversed(fr.stack[-4:]))
+        if any(isinstance(a, ast.Starred) for a in c.args) or any(k.arg is None for k in c.keywords):
+            ctx.error(f"R12.13: {fr.fi.qualname} ({via}): the arguments of `{norm(c)[:60]}` at {fr.fi.loc(c)} are passed through * / **: `{UNKNOWN_FLAG}` not evaluated")
+            continue
+        fx = next((k.value for k in c.keywords if k.arg == UNKNOWN_FLAG), None)
+        if fx is None and pos.index(UNKNOWN_FLAG) < len(c.args):
+            fx = c.args[pos.index(UNKNOWN_FLAG)]
+        if fx is None:
+            fx = _param_default(rb, UNKNOWN_FLAG)
+            vals = _const_values(ip, fx, Frame(rb, {}, ())) if fx is not None else None
+            shown = f"default `{norm(fx)}`" if fx is not None else "no argument, no default"
+        else:
+            vals = _const_values(ip, fx, fr)
+            shown = f"`{norm(fx)[:40]}`"
+        if (id(c), via) in done:
+            continue
+        done.add((id(c), via))
+        n += 1
+        if vals is None or (any(bool(x) for x in vals) and not all(bool(x) for x in vals)):
+            ctx.error(f"R12.13: {fr.fi.qualname} ({via}): `{UNKNOWN_FLAG}` ({shown}) of the build call at {fr.fi.loc(c)} on the alias values {carried} does not evaluate to one truth value ({vals})")
+            continue
+        ok = not any(bool(x) for x in vals)
+        ctx.ob("R12.13", f"{fr.fi.qualname} [{via}]: the rule's build() on the alias-redirect values drops unknown values", ok,
+               f"`{norm(c)[:70]}`: {UNKNOWN_FLAG} = {shown} -> {vals} in this calling context" + ("" if ok else ": values of the alias rule the canonical rule does not take become a query string the request did not have (and the request's own query is appended after it)"),
+               fr.fi, c, f"alias build {UNKNOWN_FLAG} in {fr.fi.qualname} [{via}]")
+    ctx.floor("R12.13", "build() calls of a rule on the values of the alias-redirect signal", n, 1)
 
 
 def _is_str_test(e: ast.AST, param: str) -> bool:
